@@ -21,3 +21,10 @@ package genesis
 //@   property C18
 //@   observe v := call Validate
 //@   ensures [validated] err == nil ==> v.count == 1 && v.res0 == nil && GenesisOK(g)
+
+// Saving writes the JSON encoding of exactly this genesis, replacing the file as a whole
+//@ func (g Genesis) Save(genesisPath) (err)
+//@   property C18
+//@   observe mi := call MarshalIndent
+//@   observe wf := call WriteFile
+//@   ensures [file-replaced-with-encoding] err == nil ==> mi.count == 1 && mi.res1 == nil && wf.count == 1 && wf.res0 == nil && wf.arg1 == mi.res0
